@@ -3,7 +3,7 @@
    generated struct type (model decode = ReadFrom, model encode(decode) = WriteTo, byte-exact). *)
 From Coq Require Import List NArith ZArith Sorted.
 From TarsV Require Import Base.Hex Codec.Wire Codec.Skip Codec.SkipProofs Codec.Prim Codec.PrimProofs Codec.GenCodec Codec.Corr Codec.GenProofs
-  Codec.RoundTrip Codec.RoundTripProofs Codec.NormProofs Codec.WireSpec Codec.WireSpecProofs Codec.RoundTripExamples Codec.CorrT Gen.Schemas.
+  Codec.RoundTrip Codec.RoundTripProofs Codec.NormProofs Codec.WireSpec Codec.WireSpecProofs Codec.RoundTripExamples Codec.CanonProofs Codec.TypedProofs Codec.DeepConfProofs Codec.RefDecoder Codec.RefDecoderProofs Codec.CanonExamples Codec.CorrT Gen.Schemas.
 Import ListNotations.
 Open Scope N_scope.
 
@@ -104,6 +104,36 @@ Theorem C03_wire_conformance : forall e k sid vs,
   encode e sid (VStruct vs) = ser_fields fs /\ fields_ok fs /\ conforms (fields_of e sid) fs /\
   StronglySorted N.lt (map fst fs).
 Proof. exact WireSpecProofs.encode_conforms. Qed.
+(* ... at EVERY depth, formally (Codec/DeepConfProofs.v): tconf / sconf say that a wire tree conforms to an IDL type
+   recursively - a struct value carries its members under their declared tags, in schema order, a member missing only
+   if optional, and each member's tree conforms to the member's type; every vector / array element sits under tag 0
+   (an array has exactly its declared length), every map key under tag 0 and value under tag 1; vector<byte> is a
+   SimpleList; every leaf has a wire type its reader accepts and no nesting *)
+Theorem C03_wire_tree_conforms : forall e t v, has_type e t v -> tconf e t (wire_of e t v).
+Proof. exact DeepConfProofs.wire_tconf. Qed.
+Theorem C03_wire_conformance_deep : forall e sid vs, has_type e (TStruct sid) (VStruct vs) ->
+  sconf e (fields_of e sid) (wire_fields e vs (fields_of e sid)).
+Proof. exact DeepConfProofs.wire_fields_sconf. Qed.
+(* THE INDEPENDENT REFERENCE DECODER of the property's second sentence (Codec/RefDecoder.v: unwire). It is
+   schema-directed, works on wire trees - not on bytes - and shares nothing with the model of the generated decoder
+   (no cursor, no seeking or skipping): integers are whatever width the field has, members are matched by declared
+   tag, a missing optional member gets its declared default (else the zero value), a missing required member, an
+   undeclared tag or a wire type of another kind is refused. For every wf_schema environment, struct type and
+   well-typed value: the bytes WriteTo produces are the serialisation of a wire tree that the reference decoder
+   maps back to the same value (its normal form). *)
+Theorem C03_reference_decoder : forall e k sid vs, wf_schema k e -> has_type e (TStruct sid) (VStruct vs) ->
+  let fs := wire_fields e vs (fields_of e sid) in
+  encode e sid (VStruct vs) = ser_fields fs /\
+  unwire (need (VStruct vs)) e (TStruct sid) (WStruct fs) = Some (norm_struct e sid (VStruct vs)).
+Proof. exact RefDecoderProofs.reference_decoder. Qed.
+Theorem C03_reference_decoder_refuses :
+  let e := [[ {| ftag := 0; freq := true; fty := TI32; fdef := None |}; {| ftag := 2; freq := false; fty := TStr; fdef := None |} ]] in
+  unwire 5 e (TStruct 0) (WStruct [(0, WByte 5); (2, WStr1 [97])]) = Some (VStruct [VInt 5; VStr [97]]) /\
+  unwire 5 e (TStruct 0) (WStruct [(0, WByte 5)]) = Some (VStruct [VInt 5; VStr []]) /\
+  unwire 5 e (TStruct 0) (WStruct [(2, WStr1 [97])]) = None /\
+  unwire 5 e (TStruct 0) (WStruct [(0, WByte 5); (1, WByte 1)]) = None /\
+  unwire 5 e (TStruct 0) (WStruct [(0, WByte 5); (2, WByte 1)]) = None.
+Proof. exact RefDecoderProofs.reference_decoder_refuses. Qed.
 (* every member and element, at any depth: the bytes are the serialised wire tree of the value, or nothing when the
    member is optional and left out *)
 Theorem C03_wire_member : forall e n, (forall tag req t d v, has_type e t v -> (need v <= n)%nat ->
@@ -115,6 +145,78 @@ Proof. exact WireSpecProofs.wint_narrowest. Qed.
 (* the wire type of every member is one the reader of its IDL type accepts *)
 Theorem C03_wire_admissible : forall e t v, has_type e t v -> adm t (ty_of (wire_of e t v)) = true.
 Proof. exact WireSpecProofs.adm_wire. Qed.
+
+(* THE ENCODING IS CANONICAL. encode o norm = encode: what is decoded from an encoding re-encodes to the same bytes
+   (decode-then-encode is the identity on every image of the encoder); two well-typed values have the same bytes
+   exactly when they have the same normal form - so the bytes of a value are unique and the encoder is injective
+   up to norm (Go's == on optional floats that were left out). Every wf_schema environment with typed defaults,
+   every struct type with a finite type graph. *)
+Theorem C03_encode_norm : forall e, defaults_typed e -> forall sid vs, has_type e (TStruct sid) (VStruct vs) ->
+  encode e sid (norm_struct e sid (VStruct vs)) = encode e sid (VStruct vs).
+Proof. exact CanonProofs.encode_norm. Qed.
+Theorem C03_reencode_canonical : forall e k n, wf_schema k e -> defaults_typed e -> (S k <= 64)%nat ->
+  forall sid, tfin n e (TStruct sid) = true -> (tneed n e (TStruct sid) + k <= 64)%nat ->
+  forall vs, has_type e (TStruct sid) (VStruct vs) ->
+  exists v', decode e sid (encode e sid (VStruct vs)) = DOk v' [] /\ encode e sid v' = encode e sid (VStruct vs).
+Proof. exact CanonProofs.reencode_canonical. Qed.
+Theorem C03_encode_injective : forall e k n, wf_schema k e -> defaults_typed e -> (S k <= 64)%nat ->
+  forall sid, tfin n e (TStruct sid) = true -> (tneed n e (TStruct sid) + k <= 64)%nat ->
+  forall vs1 vs2, has_type e (TStruct sid) (VStruct vs1) -> has_type e (TStruct sid) (VStruct vs2) ->
+  (encode e sid (VStruct vs1) = encode e sid (VStruct vs2) <-> norm_struct e sid (VStruct vs1) = norm_struct e sid (VStruct vs2)).
+Proof. exact CanonProofs.encode_injective. Qed.
+Theorem C03_code_schemas_reencode_canonical : forall sid vs, fits_model sid = true -> has_type env0 (TStruct sid) (VStruct vs) ->
+  exists v', decode env0 sid (encode env0 sid (VStruct vs)) = DOk v' [] /\ encode env0 sid v' = encode env0 sid (VStruct vs).
+Proof. exact CanonExamples.env0_reencode_canonical. Qed.
+Theorem C03_code_schemas_encode_injective : forall sid vs1 vs2, fits_model sid = true ->
+  has_type env0 (TStruct sid) (VStruct vs1) -> has_type env0 (TStruct sid) (VStruct vs2) ->
+  (encode env0 sid (VStruct vs1) = encode env0 sid (VStruct vs2) <-> norm_struct env0 sid (VStruct vs1) = norm_struct env0 sid (VStruct vs2)).
+Proof. exact CanonExamples.env0_encode_injective. Qed.
+(* EXACTLY there: on an accepted input (every byte < 256, shorter than 2^31, everything consumed) decode-then-encode
+   gives the input back if and only if the input is the encoding of a well-typed value - the non-canonical accepted
+   inputs are precisely those outside the encoder's image (uses C06_decode_typed: what the decoder returns is well typed) *)
+Theorem C03_reencode_exact : forall e k n sid bs v,
+  wf_schema k e -> defaults_typed e -> arrs_ok e -> (S k <= 64)%nat ->
+  tfin n e (TStruct sid) = true -> (tneed n e (TStruct sid) + k <= 64)%nat ->
+  bytes_ok bs -> lenok bs -> decode e sid bs = DOk v [] ->
+  (encode e sid v = bs <-> exists vs, has_type e (TStruct sid) (VStruct vs) /\ bs = encode e sid (VStruct vs)).
+Proof. exact TypedProofs.reencode_exact. Qed.
+Theorem C03_code_schemas_reencode_exact : forall sid bs v, fits_model sid = true -> bytes_ok bs -> lenok bs ->
+  decode env0 sid bs = DOk v [] ->
+  (encode env0 sid v = bs <-> exists vs, has_type env0 (TStruct sid) (VStruct vs) /\ bs = encode env0 sid (VStruct vs)).
+Proof. exact CanonExamples.env0_reencode_exact. Qed.
+(* canonicalising an accepted input preserves its meaning: the re-encoding decodes, everything consumed, to a value
+   equal to the one first decoded, and re-encoding again changes nothing *)
+Theorem C03_reencode_meaning : forall e k n sid bs v,
+  wf_schema k e -> defaults_typed e -> arrs_ok e -> (S k <= 64)%nat ->
+  tfin n e (TStruct sid) = true -> (tneed n e (TStruct sid) + k <= 64)%nat ->
+  bytes_ok bs -> lenok bs -> decode e sid bs = DOk v [] ->
+  exists v', decode e sid (encode e sid v) = DOk v' [] /\ veq e (TStruct sid) v' v /\ encode e sid v' = encode e sid v.
+Proof. exact TypedProofs.reencode_meaning. Qed.
+(* ... and ONLY there: "decode-then-encode is the identity on every ACCEPTED input" is false. The readers accept more
+   than the writers produce, by design of the wire format (readers widen): an integer in a wider-than-narrowest
+   width, STRING4 for a short string, a member present at its default, ZeroTag for a float, a double sent as FLOAT,
+   vector<byte> as LIST, unknown fields. Each kind is accepted with everything consumed and re-encodes to different -
+   the canonical - bytes (noncanonical_images, evaluated on the model; replayed on the generated Go code, see design/C03.md). *)
+Definition C03_reencode_identity_statement : Prop :=
+  forall e sid bs v, decode e sid bs = DOk v [] -> encode e sid v = bs.
+Theorem C03_reencode_identity_refuted : ~ C03_reencode_identity_statement.
+Proof. exact CanonProofs.reencode_identity_refuted. Qed.
+Theorem C03_noncanonical_images :
+  noncanonical [1; 0; 5] = true /\ noncanonical [2; 0; 0; 0; 5] = true /\ noncanonical [0; 5; 23; 0; 0; 0; 1; 97] = true
+  /\ noncanonical [0; 5; 32; 7] = true /\ noncanonical [0; 5; 57; 0; 1; 0; 9] = true /\ noncanonical [0; 5; 92] = true
+  /\ noncanonical [0; 5; 84; 63; 128; 0; 0] = true /\ noncanonical [0; 5; 64; 9] = true /\ noncanonical [0; 5] = false.
+Proof. exact CanonProofs.noncanonical_images. Qed.
+(* the round trip on the member shapes the schema language allows beyond the regenerated schemas: fixed arrays of
+   ragged nested vectors, arrays of byte vectors, vectors of arrays of maps, optional members of every scalar type at
+   non-zero declared defaults (left out) and away from them, an empty required byte vector as the last bytes *)
+Theorem C03_shapes_roundtrip :
+  (has_type shapes (TStruct 0) (VStruct shape1) /\
+   decode shapes 0 (encode shapes 0 (VStruct shape1)) = DOk (norm_struct shapes 0 (VStruct shape1)) [] /\
+   norm_struct shapes 0 (VStruct shape1) = VStruct shape1) /\
+  (has_type shapes (TStruct 0) (VStruct shape2) /\
+   decode shapes 0 (encode shapes 0 (VStruct shape2)) = DOk (norm_struct shapes 0 (VStruct shape2)) [] /\
+   norm_struct shapes 0 (VStruct shape2) = VStruct shape2).
+Proof. exact (conj CanonExamples.shape1_roundtrip CanonExamples.shape2_roundtrip). Qed.
 
 (* member level: every scalar member type round-trips under any tag, before any suffix, exact cursor *)
 Theorem C03_scalar_member_roundtrip : forall f e tag req t prior v rest, tag < 256 -> scalar_typed t v ->
@@ -139,9 +241,24 @@ Print Assumptions C03_code_schemas_wf.
 Print Assumptions C03_code_schemas_roundtrip.
 Print Assumptions C03_code_schemas_covered.
 Print Assumptions C03_wire_conformance.
+Print Assumptions C03_wire_tree_conforms.
+Print Assumptions C03_wire_conformance_deep.
+Print Assumptions C03_reference_decoder.
+Print Assumptions C03_reference_decoder_refuses.
 Print Assumptions C03_wire_member.
 Print Assumptions C03_int_narrowest.
 Print Assumptions C03_wire_admissible.
+Print Assumptions C03_encode_norm.
+Print Assumptions C03_reencode_canonical.
+Print Assumptions C03_encode_injective.
+Print Assumptions C03_code_schemas_reencode_canonical.
+Print Assumptions C03_code_schemas_encode_injective.
+Print Assumptions C03_reencode_exact.
+Print Assumptions C03_code_schemas_reencode_exact.
+Print Assumptions C03_reencode_meaning.
+Print Assumptions C03_reencode_identity_refuted.
+Print Assumptions C03_noncanonical_images.
+Print Assumptions C03_shapes_roundtrip.
 Print Assumptions C03_scalar_member_roundtrip.
 Print Assumptions C03_wf_schema_b_sound.
 Print Assumptions C03_has_type_b_sound.
